@@ -20,7 +20,8 @@ RULE = ("frame expressions over the TensorFrames of C07 (random subsets of the n
         "partition into 1-4 sub-frames vs the frame; (perturb) a frame vs a copy with one cell / name / target value / "
         "shape / dict order changed, compared with == in both directions; (reuse) multi-step programs in which parts and "
         "results are objects built once and used again (the same partition concatenated twice, a column part row-split "
-        "and reassembled, the first result compared again after a second cat); every input of every cat is snapshot "
+        "and reassembled, the first result compared again after a second cat; get_col_feat on older frames and on "
+        "column parts interleaved with the construction of newer frames over the same names, absent names included); every input of every cat is snapshot "
         "before the call and must be unchanged after it; (lookup) get_col_feat of every column name "
         "and of an absent one; (malformed) mismatched schemas, duplicated names within and across stypes, two targets, "
         "mixed targets, empty list, differing row counts, validate() violations. distinct = distinct (kind, sub-kind, "
@@ -584,10 +585,65 @@ def REF(i):
     return {"op": "ref", "i": i}
 
 
+def gen_lookup_history(rng):
+    """several frames over overlapping column names are alive; lookups by name on the OLDER objects are interleaved with
+    the construction of newer ones (column parts, their cat, a frame with the same names at other positions / stypes),
+    including names that exist only in some other frame"""
+    c = gen_colpart(rng)
+    while len(c["a"]["parts"]) < 2 and rng.chance(0.85):
+        c = gen_colpart(rng)
+    fr = c["b"]["frame"]
+    for _ in range(10):
+        if all_names(fr):
+            break
+        c = gen_colpart(rng)
+        fr = c["b"]["frame"]
+    names = all_names(fr)
+    # the same names at other positions / stypes
+    rot = copy.deepcopy(fr)
+    flat = names[1:] + names[:1] if len(names) > 1 else [names[0] + "_r"] if names else []
+    if rng.chance(0.5):
+        flat = list(reversed(names)) if len(names) > 1 else flat
+    it = iter(flat)
+    for f in rot["feats"]:
+        f["names"] = [next(it) for _ in f["names"]]
+    other = F.gen_frame(rng, n=rng.randint(1, 3), featureless_p=0.0, name_prefix="z")
+    onames = all_names(other)
+    parts = c["a"]["parts"]
+    env = [c["b"]]                                        # A, the older frame
+    asked = list(names) + onames[:2] + ["no_such_column"]
+    rng.shuffle(asked)
+
+    def look(e, nms):
+        nms = list(nms)
+        rng.shuffle(nms)
+        return {"as": "lookup", "a": e, "b": None, "lookups": nms}
+
+    checks = [look(REF(0), names)]
+    steps = [("rot", B(rot), all_names(rot)), ("other", B(other), onames)]
+    for j, p_ in enumerate(parts[:3]):
+        steps.append((f"part{j}", p_, all_names(p_["frame"]) + names[:2]))
+    steps.append(("cat", c["a"], names))
+    rng.shuffle(steps)
+    for _, e, nms in steps[:rng.randint(2, 4)]:
+        checks.append(look(e, nms))                       # a newer frame is constructed (and asked)
+        checks.append(look(REF(0), asked))                # ... then the OLDER frame is asked again
+    if len(parts) >= 2:
+        # a column part built once, asked after its siblings and their concatenation exist
+        env.append(parts[0])
+        env.append({"op": "cat", "parts": [REF(1)] + parts[1:], "dim": 1})
+        checks.append(look(REF(1), all_names(parts[0]["frame"]) + names))
+        checks.append(look(REF(2), names + onames[:1]))
+    return {"kind": "reuse", "sub": "lookup-history", "env": env, "checks": checks, "a": c["b"], "b": None,
+            "lookups": [], "meta": {}}
+
+
 def gen_reuse(rng):
     """multi-step cases: parts / results are objects built once and used again after a concatenation"""
     sub = rng.wpick([(3, "col-cat-twice"), (3, "col-part-row-roundtrip"), (2, "col-result-again"), (2, "row-cat-twice"),
-                     (2, "row-part-col-reuse")])
+                     (2, "row-part-col-reuse"), (6, "lookup-history")])
+    if sub == "lookup-history":
+        return gen_lookup_history(rng)
     if sub.startswith("col"):
         c = gen_colpart(rng)
         while len(c["a"]["parts"]) < 2 and rng.chance(0.8):
@@ -730,7 +786,7 @@ REQUIRED_STREAMS = [           # prefixes of kind/sub-kind; each has an expected
     "rowpart/cuts", "rowpart/perm", "rowpart/any", "colpart/", "perturb/cell", "perturb/tol-", "perturb/nan",
     "perturb/name", "perturb/boundary|perturb/met-boundary", "perturb/y-", "perturb/same:", "perturb/drop-|perturb/dict-key",
     "lookup/", "malformed/row:", "malformed/col:", "malformed/val:", "indep/same", "indep/met-widths|indep/dict-keys",
-    "reuse/col", "reuse/row",
+    "reuse/col", "reuse/row", "reuse/lookup-history",
 ]
 
 
